@@ -52,6 +52,7 @@ class Interposer:
         self.busy = 0
         self.installed = False
         self.unsupported = []
+        self.exdev = False          # fault: a rename between two directories fails with EXDEV (tempfiles/ on another mount)
 
     # ------------------------------------------------------------------ paths
     def rel(self, p):
@@ -274,6 +275,9 @@ class Interposer:
             return _ORIG[which](src, dst, src_dir_fd=src_dir_fd, dst_dir_fd=dst_dir_fd)
         top = self._enter('rename')
         try:
+            if self.exdev and a is not None and b is not None and os.path.dirname(a) != os.path.dirname(b):
+                import errno
+                raise OSError(errno.EXDEV, 'Invalid cross-device link', os.fspath(src), None, os.fspath(dst))
             isdir = os.path.isdir(src)
             r = _ORIG[which](src, dst, src_dir_fd=src_dir_fd, dst_dir_fd=dst_dir_fd)
             if isdir or a is None or b is None:
